@@ -210,14 +210,15 @@ Print Assumptions abaco_checker_sound.
 (* after a START: no two streams (or formats) share a file, and every header carries the identity that the
    tables (status messages) give to the stream *)
 Theorem files_checker_sound :
-  forall t source with_off cf nfiles,
-    check_files t source with_off cf nfiles = true ->
+  forall t source offs cf nfiles,
+    check_files t source offs cf nfiles = true ->
     zlen cf = zlen (t_names t) /\
-    NoDup (map f_ljh cf ++ map f_ljh3 cf ++ (if with_off then map f_off cf else [])) /\
+    NoDup (map f_ljh cf ++ map f_ljh3 cf ++ off_names cf) /\
     forall k, 0 <= k < zlen cf ->
       let f := znth (mkCF EmptyString 0 EmptyString EmptyString EmptyString (status_ident t source 0) None) cf k in
       let id := status_ident t source k in
       f_dspname f = i_chname id /\ f_dspnum f = i_chnum id /\ ident_eqb (f_hd f) id = true /\
-      (with_off = true -> exists h, f_offhd f = Some h /\ ident_eqb h id = true).
+      (has_off offs k = true -> exists h, f_offhd f = Some h /\ ident_eqb h id = true) /\
+      (has_off offs k = false -> f_offhd f = None).
 Proof. exact check_files_sound. Qed.
 Print Assumptions files_checker_sound.
